@@ -2,8 +2,7 @@ import Percival.Proofs.Sha256Refines
 import Percival.Proofs.Sha1Refines
 import Percival.Proofs.Md5Refines
 import Percival.Proofs.Pbkdf2Stream
-import Percival.Spec.Crc32c
-import Percival.Gen.Crc32cConsts
+import Percival.Proofs.CrcMain
 /-!
 # C01 — digests, HMACs, PBKDF2 and CRC32C equal their specified functions
 
@@ -157,6 +156,56 @@ theorem pbkdf2_eq_spec (P S : Bytes) (c dkLen : Nat) (hc : 1 ≤ c) :
 /-- two iterations, a last block of 8 bytes -/
 example : Pbkdf2.pbkdf2 [0x70] [0x73] 2 40 = some (Spec.Pbkdf2.pbkdf2Sha256 [0x70] [0x73] 2 40) :=
   pbkdf2_eq_spec _ _ _ _ (by decide)
+
+/-! ## CRC32C has the documented algebraic meaning
+
+`Spec.Crc32c.Valid data crc` is the sentence of `crc32c.h`: the bit string `1 ‖ data ‖ crc`, each
+byte least-significant bit first, is a multiple of the Castagnoli polynomial `0x11EDC6F41` over
+GF(2).  The portable code never looks at the buffer's address, so "all alignments" is vacuous for
+the model (the harness varies the alignment against the real code). -/
+
+/-- `CRC32C_Init`, any sequence of `CRC32C_Update`s (4-byte table loop + byte loop), `CRC32C_Final`:
+    the result satisfies the documented sentence, for every data and every split -/
+theorem crc_divisible (chunks : List Bytes) :
+    Spec.Crc32c.Valid chunks.flatten (Crc32c.final (chunks.foldl Crc32c.update Crc32c.init)) := by
+  rw [Proofs.CrcMain.update_chunks, Proofs.CrcMain.model_eq_spec]
+  exact Proofs.CrcPoly.spec_valid _
+
+example : Spec.Crc32c.Valid [0x68, 0x65, 0x6c, 0x6c, 0x6f]
+    (Crc32c.final ([[0x68, 0x65], [], [0x6c, 0x6c, 0x6f]].foldl Crc32c.update Crc32c.init)) :=
+  crc_divisible [[0x68, 0x65], [], [0x6c, 0x6c, 0x6f]]
+
+/-- … and it is the value the sentence determines (`Spec.Crc32c.crc32c` = remainder of `(1 ‖ data)·x³²`) -/
+theorem crc_eq_spec (chunks : List Bytes) :
+    Crc32c.final (chunks.foldl Crc32c.update Crc32c.init) = Spec.Crc32c.crc32c chunks.flatten := by
+  rw [Proofs.CrcMain.update_chunks, Proofs.CrcMain.model_eq_spec]
+
+/-- the sentence has exactly one solution, so `Valid` is not a weak statement -/
+theorem crc_valid_unique (data crc : Bytes) (h : Spec.Crc32c.Valid data crc) : crc = Spec.Crc32c.crc32c data :=
+  Proofs.CrcMain.valid_unique data crc h
+
+example : ¬ Spec.Crc32c.Valid [0x41] [0x46, 0x64, 0xd3, 0x49] := by decide
+
+/-- one iteration of the slice-by-4 loop is four iterations of the byte loop -/
+theorem crc_slice4_eq_4_bytes (s : UInt32) (b0 b1 b2 b3 : UInt8) :
+    Crc32c.step4 s b0 b1 b2 b3 = Crc32c.step1 (Crc32c.step1 (Crc32c.step1 (Crc32c.step1 s b0) b1) b2) b3 :=
+  Proofs.CrcWord.step4_eq s b0 b1 b2 b3
+
+example : Crc32c.step4 0x82f63b78 1 2 3 4
+    = Crc32c.step1 (Crc32c.step1 (Crc32c.step1 (Crc32c.step1 0x82f63b78 1) 2) 3) 4 := crc_slice4_eq_4_bytes _ _ _ _ _
+
+/-- the table-driven byte step is eight steps of the bit-serial reflected shift register -/
+theorem crc_byte_step (s : UInt32) (b : UInt8) :
+    Crc32c.step1 s b = (Spec.Crc32c.bitsOfByte b).foldl Proofs.CrcWord.bitStep s :=
+  Proofs.CrcWord.step1_bits s b
+
+example : Crc32c.step1 0 0x80 = (Spec.Crc32c.bitsOfByte 0x80).foldl Proofs.CrcWord.bitStep 0 := crc_byte_step _ _
+
+/-- the assertion in `init()` (`T0[0x80] == T_0_0x80`) holds -/
+theorem crc_init_assertion : Crc32c.initAssertion = true := by
+  unfold Crc32c.initAssertion Crc32c.T0
+  rw [Vector.getElem_ofFn]
+  decide
 
 /-! ## `Gen = Spec`: the constants read off the C source are the standards' constants
 
